@@ -82,10 +82,14 @@ impl World {
         };
         let mut out = String::new();
         for i in 0..len {
-            let b: &Board = self.rc.expect_board(i);
-            let tok = match self.rc.moves[i].styled(b, style_of(style)) {
-                Ok(t) => t.to_string(),
-                Err(_) => return None,
+            // each move's text is written by the harness from the rules model (standard SAN with
+            // minimal disambiguation among legal moves, or coordinates), not taken from the library
+            let tok = match style % 3 {
+                2 => crate::full::rmove_of(&self.rc.moves[i]).uci(),
+                k => match &self.rc.san[i] {
+                    Some(t) => t[k as usize].clone(),
+                    None => return None,
+                },
             };
             let white = (i % 2 == 0) != black_start;
             if let Some(n) = n0 {
@@ -112,7 +116,23 @@ impl World {
         Some(out)
     }
 
+    fn fill_san(&mut self) {
+        for i in 0..self.rc.len() {
+            if self.rc.san[i].is_none() {
+                let info = Info::of(self.rc.expect_board(i));
+                let m = crate::full::rmove_of(&self.rc.moves[i]);
+                self.rc.san[i] = Some([
+                    crate::denote::standard_san(&info.pos, &info.legal, &m, false),
+                    crate::denote::standard_san(&info.pos, &info.legal, &m, true),
+                ]);
+            }
+        }
+    }
+
     fn do_print(&mut self, p: &PrintSpec) -> Result<(), Violation> {
+        if p.styled.is_some() {
+            self.fill_san();
+        }
         let limit = p.sink_limit.map(|n| n as usize).unwrap_or(usize::MAX);
         let mut sink = LimitedSink { buf: String::new(), limit, failed: false };
         match p.styled {
